@@ -117,20 +117,37 @@ def _job(job):
                 events.append({"kind": "hdr", "flat": [[k, _val(v, toks)] for k, v in flat.items() if _fits_representable(v)],
                                "header": [[k, _val(hdr[k], toks)] for k in hdr.keys() if str(k).startswith("Config")],
                                "_m": {"spec": spec, "seed": seed, "nflat": len(flat)}})
-                # "stored results can always be reloaded for plotting": the show-plot application on the file, every registered plot,
-                # non-interactive backend
+                # "stored results can always be reloaded for plotting": the show-plot application on the file with every registered plot
+                # requested.  The drawing itself is not the subject (matplotlib's binning fails on degenerate data: "Too many bins for
+                # data range" on a 59-row balloon run): the registered plot functions are replaced by recorders, so what is judged is the
+                # reload - configuration, table, and the columns every stage hands to its plots.
+                import sys as _sys
                 from nssverif import plots as _plots
                 from click.testing import CliRunner
                 from nuspacesim.apps.cli import cli
-                plt = _plots.setup()
-                _plots.all_names()
-                res = CliRunner().invoke(cli, ["show-plot", path, "--plotall"])
-                plt.close("all")
-                # (judged for tables with enough rows for the histograms: a 6-row or empty table makes matplotlib's binning fail, which
-                # says nothing about reloading)
-                events.append({"kind": "plotload", "ok": bool(res.exit_code == 0 or len(t) < 50),
+                names = set(_plots.all_names())
+                called, undo = [], []
+                for mod in list(_sys.modules.values()):
+                    if mod is None or not getattr(mod, "__name__", "").startswith("nuspacesim"):
+                        continue
+                    for nm, obj in list(vars(mod).items()):
+                        if callable(obj) and getattr(obj, "__name__", None) in names and nm in names:
+                            def rec(*a, _n=nm, **k):
+                                called.append(_n)
+                            rec.__name__ = nm
+                            undo.append((mod, nm, obj))
+                            setattr(mod, nm, rec)
+                try:
+                    res = CliRunner().invoke(cli, ["show-plot", path, "--plotall"])
+                finally:
+                    for mod, nm, obj in undo:
+                        setattr(mod, nm, obj)
+                # (an empty table has no row 0 for the geometry plot's first input: nothing to plot, not judged)
+                events.append({"kind": "plotload", "ok": bool(res.exit_code == 0 or len(t) == 0),
                                "_m": {"spec": spec, "seed": seed, "exit_code": res.exit_code, "exception": repr(res.exception)[:200],
-                                      "optical": bool(spec.get("optical", True)), "radio": bool(spec.get("radio", True)), "rows": len(t)}})
+                                      "optical": bool(spec.get("optical", True)), "radio": bool(spec.get("radio", True)), "rows": len(t),
+                                      "plots_reached": sorted(set(called)),
+                                      "where": "".join(__import__("traceback").format_exception(*res.exc_info))[-700:] if res.exit_code and res.exc_info else None}})
                 try:
                     rec = config_from_fits(path)
                     fc, fr = dict(flatten(run_cfg)), dict(flatten(rec))
